@@ -16,7 +16,7 @@ RULE = ("G-int: per rank 1-40 device activities on 1-4 streams with start/end dr
         "activities that overlap or touch. Distinct = hash of the files.")
 ASSUMPTIONS = ["kernel_time > 0 (a rank whose activities all have zero length at one instant divides by zero: out of regime)",
                "device activity = complete event whose stream is not -1; type by the documented name rules (hv/ref/intervals.py)"]
-PLAN = {"quick": {"shards": 16, "cases": 480, "timeout": 600}, "thorough": {"shards": 16, "cases": 10000, "timeout": 3000}}
+PLAN = {"quick": {"shards": 16, "cases": 960, "timeout": 600}, "thorough": {"shards": 16, "cases": 10000, "timeout": 3000}}
 FLOORS = {"quick": {"distinct_nontrivial": 150, "ranks_judged": 700, "merge_kernel_intervals.post": 1400, "with_touching": 150,
                     "with_identical": 100, "with_zero_length": 100, "with_nested": 150},
           "thorough": {"distinct_nontrivial": 3000, "ranks_judged": 14000, "merge_kernel_intervals.post": 28000, "with_touching": 3000,
@@ -59,6 +59,11 @@ def setup(ctx: Any) -> None:
 
 def gen_case(rnd, tier: str, i: Any) -> Dict[str, Any]:
     return gen_int.gen_case(rnd, tier)
+
+
+def fixed_cases(tier: str):
+    from hv import samples
+    return samples.sample_cases(tier)
 
 
 def activities(tr: Dict[str, Any]):
@@ -123,7 +128,9 @@ def run_case(case: Dict[str, Any], ctx: Any) -> core.CaseResult:
                     res.bad("percentage", f"rank {r}: {col}={row[col]} but {part}/kernel_time = {exp[part]}/{span} -> {want}")
         res.nontrivial = nontrivial
         res.trivial_reason = "no overlapping or touching activities"
-        res.key = core.digest(case["files"])
+        res.key = core.digest(case.get("sample") or case["files"])
+        if case.get("sample"):
+            res.counters["real_sample_traces"] += 1
         a0 = next(iter(per_rank.values()))
         res.sample = {"ranks": len(per_rank), "activities_rank0[ts,end,type,stream]": sorted((e.ts, e.end, iv.kernel_type(e.name), e.stream) for e in a0)[:10],
                       "breakdown_rank0": {k: float(v) for k, v in tb.iloc[0].to_dict().items()}}
